@@ -837,6 +837,78 @@ func runC12(c Case, m *Model) (v Verdict) {
 			usOf[c12Pos{k, i}] = e.us
 		}
 	}
+	// 2b. the scheduled times against the tempo map of the file, computed here from the built case with exact integer
+	// arithmetic (a tempo event acts from its tick on; of several on one tick of one track the last one counts; when
+	// two tracks change the tempo on the same tick to different values the file is ambiguous and not judged)
+	{
+		type tch struct{ tick, track, pos, us int }
+		var tcs []tch
+		for k, t := range cs.tracks {
+			tick := 0
+			for i, e := range t.evs {
+				tick += int(e.delta)
+				if len(e.msg) == 6 && e.msg[0] == 0xFF && e.msg[1] == 0x51 && e.msg[2] == 3 {
+					tcs = append(tcs, tch{tick, k, i, int(e.msg[3])<<16 | int(e.msg[4])<<8 | int(e.msg[5])})
+				}
+			}
+		}
+		sort.SliceStable(tcs, func(a, b int) bool {
+			if tcs[a].tick != tcs[b].tick {
+				return tcs[a].tick < tcs[b].tick
+			}
+			if tcs[a].track != tcs[b].track {
+				return tcs[a].track < tcs[b].track
+			}
+			return tcs[a].pos < tcs[b].pos
+		})
+		ambiguous := len(tcs) > 12
+		for i := 1; i < len(tcs); i++ {
+			if tcs[i].tick == tcs[i-1].tick && tcs[i].track != tcs[i-1].track && tcs[i].us != tcs[i-1].us {
+				ambiguous = true
+			}
+			if tcs[i].us == 0 || tcs[0].us == 0 {
+				ambiguous = true // tempo 0: infinitely fast, not judged here
+			}
+		}
+		if !ambiguous {
+			// numerator of the time of a tick over the denominator res
+			timeNum := func(tick int) int64 {
+				var num int64
+				cur, last := 500000, 0
+				for i := 0; i < len(tcs); i++ {
+					if tcs[i].tick >= tick {
+						break
+					}
+					// the last change on this tick
+					j := i
+					for j+1 < len(tcs) && tcs[j+1].tick == tcs[i].tick {
+						j++
+					}
+					num += int64(tcs[i].tick-last) * int64(cur)
+					cur, last = tcs[j].us, tcs[i].tick
+					i = j
+				}
+				return num + int64(tick-last)*int64(cur)
+			}
+			for k, t := range cs.tracks {
+				tick := 0
+				for i, e := range t.evs {
+					tick += int(e.delta)
+					us, has := usOf[c12Pos{k, i}]
+					if !has {
+						continue
+					}
+					num := timeNum(tick)
+					lo, hi := num/int64(cs.res)-int64(len(tcs))-2, num/int64(cs.res)+int64(len(tcs))+2
+					if us < lo || us > hi {
+						v.Oracle = append(v.Oracle, fmt.Sprintf("track %d event %d (% X) on tick %d is scheduled at %d µs, the tempo map of the file puts it at %d µs :: %s", k, i, e.msg, tick, us, num/int64(cs.res), short(c.Op)))
+						return
+					}
+				}
+			}
+			v.Counts = map[string]int{"schedule-vs-tempo-map": 1}
+		}
+	}
 	// 3. the model
 	var sb strings.Builder
 	if cs.api == "one" {
